@@ -98,6 +98,16 @@ class C07(flow.Spec):
             out.append(("ctx %d %s" % (n, " ".join(reqs)), {"concurrent"}))
         return out
 
+    expected_ok = {}
+
+    def replay_aux(self, cases):
+        """what a replay needs besides the case line: which requests were generated to fail"""
+        return {c: self.expected_ok.get(c) for c in cases if c in self.expected_ok}
+
+    def load_aux(self, aux):
+        self.expected_ok = dict(self.expected_ok)
+        self.expected_ok.update({k: v for k, v in (aux or {}).items() if v is not None})
+
     def model_lines(self, case, impl_obs):
         if not case.startswith("ltx") or impl_obs.startswith(("ERR", "PANIC", "CRASH")):
             return []
